@@ -902,6 +902,14 @@ func queueSummaries(c *core.Ctx, q *queueHelpers) {
 					ok, why = false, "unexpected store "+short(a)
 				}
 			}
+			for _, st := range p.Events(ir.KCall) {
+				if isMethodCall(st, "(*sync.Pool).Put") {
+					ok, why = false, "enq hands a node back to the pool while linking it into the queue"
+				}
+			}
+			if !ok {
+				break
+			}
 			if !setNextNil || !setTail || linkAfterTail != (tailNil < 0) || setHead != (headNil > 0) || tailNil == 0 || headNil == 0 {
 				ok, why = false, fmt.Sprintf("expected next:=nil, tail.next:=node iff tail != nil, tail:=node, head:=node iff head == nil (found next:=nil %v, link %v with tail==nil %d, tail %v, head %v with head==nil %d)", setNextNil, linkAfterTail, tailNil, setTail, setHead, headNil)
 			}
@@ -933,8 +941,22 @@ func queueSummaries(c *core.Ctx, q *queueHelpers) {
 					ok, why = false, "unexpected store "+short(a)+" := "+short(v)
 				}
 			}
+			// a node goes back to the pool at most once, and only the node just removed: a node the pool hands out twice
+			// would be linked into the queue twice
+			nPut := 0
+			for _, st := range p.Events(ir.KCall) {
+				if isMethodCall(st, "(*sync.Pool).Put") {
+					nPut++
+					if len(st.A) < 2 || !ir.Same(st.A[1], oldHead) {
+						ok, why = false, "a node other than the one just removed is handed back to the pool: "+short(st.A[len(st.A)-1])
+					}
+				}
+			}
+			if nPut > 1 {
+				ok, why = false, fmt.Sprintf("the removed node is handed back to the pool %d times: the pool would hand it out twice and two queue positions would share one node", nPut)
+			}
 			r := p.Results[0]
-			if !advHead || clrTail != (wasTail > 0) || wasTail == 0 || !(r.Op == "load" && r.Args[0].Op == "faddr" && r.Args[0].Aux == q.fValue && ir.Same(r.Args[0].Args[0], oldHead)) {
+			if ok && (!advHead || clrTail != (wasTail > 0) || wasTail == 0 || !(r.Op == "load" && r.Args[0].Op == "faddr" && r.Args[0].Aux == q.fValue && ir.Same(r.Args[0].Args[0], oldHead))) {
 				ok, why = false, fmt.Sprintf("expected head := head.next, tail := nil iff the removed node was the tail, result the removed node's value (advance %v, clear-tail %v with was-tail %d, result %s)", advHead, clrTail, wasTail, short(r))
 			}
 		}
